@@ -9,7 +9,7 @@ META = {
     "level": "other",
     "technique": "static analysis: who-may-call (one classifier), enum tabulation of can_cast over all node kinds vs the classifier's dispatch, call-graph reachability (no node-text stringification behind Definition::name), set-typed result collection",
     "rule": "R1 goto_definition, references, highlight_related, rename, hover, semantic highlighting and all FindUsages::found_* obtain their "
-            "Definition from classify_node, and the per-kind classifiers are called from classify_node only; R2 the node kinds the search "
+            "Definition from classify_node, and the per-kind classifiers are called from classify_node only; every call of the sink in a found_* function is preceded by classify_node on every path; R2 the node kinds the search "
             "casts a hit's parent to equal the kinds classify_node dispatches on; R3 Definition::name (the text the search compares tokens "
             "with) never stringifies a syntax node; every Definition variant that classify_name can produce for a binder has an arm; R4 "
             "results are collected through a set and highlight restricts the same search to the current file. One obligation per function/kind. R5 the search scope covers every module file of every package unless the definition is local. R6 = C05/S9 node identity; R4 also: a set that filters the references is keyed by (file, range).",
@@ -70,6 +70,17 @@ def run(F, res, tier):
                  for ff in fs for b, t in ff.calls())
         res.ob("R1", "search/" + n, "FindUsages::%s keeps a candidate only if classify_node(candidate) equals the searched definition" % n,
                CLASSIFY in calls and eq, where=f.loc(), how="classify_node: %s, equality test: %s" % (CLASSIFY in calls, eq))
+        # every hit: no path reaches a sink call without having classified the candidate
+        from lib import inline as IL
+        fi = IL.inlined(F, f, depth=1)
+        cls = [b for b, t in fi.calls() if callee(t) == CLASSIFY]
+        sinks = [(b, t) for b, t in fi.calls() if "fnop" in t or (callee_def(t) or "").endswith("FnMut::call_mut") or (callee(t) or "").endswith("call_mut")]
+        res.floor("sink calls in FindUsages::%s" % n, len(sinks), 1)
+        for k, (b, t) in enumerate(sinks):
+            ok = bool(cls) and FL.must_pass(fi, cls, [b])
+            res.ob("R1", "search/%s/hit/%d" % (n, k), "FindUsages::%s reports this hit only after classify_node(candidate) was asked: the search has no second way "
+                   "of deciding what a name refers to" % n, ok, where=fi.loc(t["ln"]),
+                   how="every path from the entry to this sink call passes a classify_node call: %s" % ok)
     private = [p for p in F.fns if p.startswith(SEM + "classify_") and p != CLASSIFY and F.fns[p].kind == "Fn"]
     res.floor("per-kind classifier functions", len(private), 4)
     for p in sorted(private):
@@ -155,10 +166,40 @@ def run(F, res, tier):
            "well as the range (the same range in two files is two references)", not narrow, where=F.fn(rf).loc(),
            how="set element types: %s" % sorted(elems))
     highlight_current_file(F, res, "R4")
+    # the set of highlight_related merges two entries only if they are equal as a whole: whatever an entry carries besides its
+    # range must be the same for all of them, or one range can be listed twice
+    import re as _re2
+    hp = "ide::ide::highlight_related::highlight_related"
+    hfs = [F.fns[q] for q in [hp] + list(F.closures_of(hp))]
+    el = {m.group(1) for ff in hfs for l in ff.d["locals"] for m in [_re2.search(r"hash::set::HashSet<([^,>]+)", l["ty"])] if m}
+    for e in sorted(el):
+        if e.endswith("TextRange"):
+            continue
+        cons = [(ff, b, st) for ff, b, st in EF_constructions(F, e) if ff.path == hp or ff.path.startswith(hp + "::")]
+        vals = {}
+        for ff, b, st in cons:
+            for nm, op in zip(st["rv"].get("fields") or [], st["rv"]["ops"]):
+                if nm == "range":
+                    continue
+                vals.setdefault(nm, set()).add(json_key(op) if "k" in op else "not a constant @%s" % ff.loc(st["ln"]))
+        bad = {k: sorted(v) for k, v in vals.items() if len(v) > 1 or any(x.startswith("not a constant") for x in v)}
+        res.ob("R4", "highlight/one-entry-per-range", "the entries highlight_related collects differ in their range only (the set compares whole entries: a second "
+               "value of another field lists the same range twice)", bool(cons) and not bad, where=F.fn(hp).loc(),
+               how="%d constructions of %s; fields besides range: %s" % (len(cons), e.rsplit("::", 1)[-1], {k: sorted(v) for k, v in vals.items()}))
     hl = F.fn("ide::ide::highlight_related::highlight_related")
     calls = [FL.short(callee(t) or callee_def(t)) for b, t in hl.calls()]
     res.ob("R4", "highlight-same-search", "highlight_related runs the same usage search restricted to the current file (SearchScope::single_file)",
            "SearchScope::single_file" in calls and "FindUsages::all" in calls, where=hl.loc(), how=str([c for c in calls if "Search" in c or "FindUsages" in c]))
+
+
+def EF_constructions(F, adt):
+    from lib import effects as EF
+    return EF.constructions(F, adt, None, "ide::")
+
+
+def json_key(op):
+    import json
+    return json.dumps(op["k"], sort_keys=True)
 
 
 def castable_kinds(F):
